@@ -21,26 +21,31 @@ def execute(plan, ctx):
     kind = drivers.KINDS[plan["kind"]]
     p = plan["params"]
     d = ctx.fresh_dir("data")
-    trip = kind.images(p)
-    images = [t[0] for t in trip]
-    models = {t[1]: t[2] for t in trip}
-    # --- the simulated Monte-Carlo programs write the files
-    sim = des.Sim(images, plan["des"], d, ctx)
     cr = plan["des"].get("crash_restart")
-    if cr:
-        t_end = sim.end_time()
-        sim.run_until(cr["at"] * t_end)
-        sim.crash(cr["torn"])
-        sim.restart()
-        ctx.fault("crash_restart")
-    sim.run_all()
-    ctx.sim_time = sim.now
-    for w, img in enumerate(images):
-        with open(sim.path(w), "rb") as f:
-            if f.read() != img.total():
-                raise AssertionError("DES self-check: file %s differs from its image" % img.name)
-    run.write_complete([], d, kind.extra_files(p))
-    nrecs = {t[1]: len(t[0].records) for t in trip} if not hasattr(kind, "nrecs_full") else kind.nrecs_full(p)
+    if hasattr(kind, "write_all"):
+        models = kind.write_all(p, d)          # hdf5: files appear atomically (HDF5 library is real, not intercepted)
+        nrecs = None
+        ctx.sim_time = float(len(p["cfgs"]))
+    else:
+        trip = kind.images(p)
+        images = [t[0] for t in trip]
+        models = {t[1]: t[2] for t in trip}
+        # --- the simulated Monte-Carlo programs write the files
+        sim = des.Sim(images, plan["des"], d, ctx)
+        if cr:
+            t_end = sim.end_time()
+            sim.run_until(cr["at"] * t_end)
+            sim.crash(cr["torn"])
+            sim.restart()
+            ctx.fault("crash_restart")
+        sim.run_all()
+        ctx.sim_time = sim.now
+        for w, img in enumerate(images):
+            with open(sim.path(w), "rb") as f:
+                if f.read() != img.total():
+                    raise AssertionError("DES self-check: file %s differs from its image" % img.name)
+        run.write_complete([], d, kind.extra_files(p))
+        nrecs = {t[1]: len(t[0].records) for t in trip}
     for ci, call in enumerate(plan["ops"]):
         ctx.step = ci
         comp = kind.component(p, call)
